@@ -155,10 +155,15 @@ def run(f, fixture, rep, cfg, tier):
         bb_ = f.one("SignatureHeaderBuilder::build")
         tb = TermBuilder(bb_)
         alg_sw = None
-        for sbk in sorted(bb_.reachable()):
-            info = switch_info(bb_, sbk)
-            if info and info["kind"] == "discr" and render(tb.term(info["place"])).endswith(".config.pub_alg"):
-                alg_sw = info
+        build_b = bb_
+        # the table may sit in build() itself, or in a closure it maps over the signatures (with a helper spliced in)
+        for cand in [bb_] + list(f.closures_of(bb_)):
+            tcand = TermBuilder(cand)
+            for sbk in sorted(cand.reachable()):
+                info = switch_info(cand, sbk)
+                if info and info["kind"] == "discr" and render(tcand.term(info["place"])).endswith(".config.pub_alg"):
+                    alg_sw = info
+                    bb_ = cand
         if rep.anchor(alg_sw is not None, "R3", "match on the signature's public-key algorithm"):
             def tag_at(target):
                 seen = set()
@@ -182,13 +187,29 @@ def run(f, fixture, rep, cfg, tier):
             errs = {v for (b2, v) in err_assign_blocks(bb_) if b2 in r}
             rep.check(errs == {"UnsupportedPGPKeyType"} and not (r & set(ok_assign_blocks(bb_))), "R3", "legacy-table|other",
                       "any other algorithm is Err(UnsupportedPGPKeyType)", "other algorithms lead to %s" % sorted(map(str, errs)), bb_.span)
+        table_b = bb_
+        bb_ = build_b
         ents = [(render(tb.term(c.args[0])), render(tb.term(c.args[2])), c) for c in bb_.calls() if re.search(r"IndexEntry::<.*>::new$", c.decl)]
         op = [e for e in ents if e[0].endswith("RPMSIGTAG_OPENPGP{}")]
-        rep.check(len(op) == 1 and "encode_sig(std::iter::Iterator::next(self.openpgp_signatures)<Some>.0)" in op[0][1] and "StringArray" in op[0][1],
+        # `signatures.iter().map(|s| encode_sig(s)).collect()` is the loop that pushes encode_sig(s) for every s
+        mapped = False
+        if len(op) == 1:
+            import idioms
+            t_op = tb.term(op[0][2].args[2])
+            if t_op[0] == "agg" and t_op[2] and t_op[2][0][0] == "call" and t_op[2][0][1].endswith("Iterator::collect"):
+                mp_ = t_op[2][0][2][0]
+                if mp_[0] == "call" and mp_[1].endswith("Iterator::map") and len(mp_[2]) == 2 and render(mp_[2][0]) == "self.openpgp_signatures":
+                    ret_, _pn = idioms._closure_ret(f, mp_[2][1])
+                    mapped = ret_ is not None and re.fullmatch(r"rpm::headers::signatures::encode_sig\((std::iter::Iterator::next|ELEM)\(self\.openpgp_signatures\)(<Some>\.0)?\)", render(ret_)) is not None
+        rep.check(len(op) == 1 and (mapped or "encode_sig(std::iter::Iterator::next(self.openpgp_signatures)<Some>.0)" in op[0][1]) and "StringArray" in op[0][1],
                   "R3", "openpgp-entry", "RPMSIGTAG_OPENPGP <- [encode_sig(sig) for sig in given signatures] in order",
                   "RPMSIGTAG_OPENPGP is built as %s" % [e[1][:200] for e in op], bb_.span)
         leg = [e for e in ents if "RPMSIGTAG_RSA" in e[0] or "RPMSIGTAG_DSA" in e[0]]
-        rep.check(len(leg) == 1 and leg[0][1] == "rpm::headers::header::IndexData::Bin{std::iter::Iterator::next(self.openpgp_signatures)<Some>.0}", "R3", "legacy-entry",
+        if not leg and table_b is not build_b:
+            # the tag is the last of the per-signature tags computed by the mapped closure, the bytes the last signature
+            leg = [e for e in ents if re.fullmatch(r"core::slice::<impl \[T\]>::last\(std::iter::Iterator::collect\(std::iter::Iterator::map\(self\.openpgp_signatures, closure\{\}\)\)(<Ok>\.0)?\)<Some>\.0", e[0])]
+        LAST_SIG = "rpm::headers::header::IndexData::Bin{core::slice::<impl [T]>::last(self.openpgp_signatures)<Some>.0}"
+        rep.check(len(leg) == 1 and leg[0][1] in ("rpm::headers::header::IndexData::Bin{std::iter::Iterator::next(self.openpgp_signatures)<Some>.0}", LAST_SIG), "R3", "legacy-entry",
                   "the legacy tag carries the raw signature bytes", "the legacy tag is built as %s" % [e[1][:200] for e in leg], bb_.span)
         sha = [e for e in ents if e[0].endswith("RPMSIGTAG_SHA256{}")]
         rep.check(len(sha) == 1 and sha[0][1] == "rpm::headers::header::IndexData::StringTag{self.header_sha256<Some>.0}", "R3", "sha256-entry",
@@ -206,6 +227,28 @@ def run(f, fixture, rep, cfg, tier):
         # ---- R6 -------------------------------------------------------------------------------
         from c02 import check_pgp_data
         check_pgp_data(f, rep, "R6", cfg)
+        # the signer names its key exactly once: signature_key_ids() accepts a signature only if it carries exactly one
+        # issuer id (hashed and unhashed areas together), so a second Issuer subpacket makes the fresh signature unreportable
+        if "no-default" not in cfg:
+            ps_ = [x for x in f.body_list if x.impl_trait == "rpm::signature::traits::Signing" and x.name == "sign" and "pgp::Signer" in (x.impl_self or "")]
+            if rep.anchor(len(ps_) == 1, "R4", "pgp Signer::sign"):
+                sb_ = ps_[0]
+                tsb = TermBuilder(sb_)
+                iss = []
+                for cb_ in [sb_] + list(f.closures_of(sb_)):
+                    inloop = set()
+                    for (_h, blks) in cb_.loops():
+                        inloop |= blks
+                    for bb_ in cb_.reachable():
+                        for st_ in cb_.stmts(bb_):
+                            if st_["k"] == "assign" and st_["rv"]["r"] == "agg" and st_["rv"].get("adt", "").endswith("SubpacketData") and st_["rv"].get("variant") == "Issuer":
+                                iss.append((cb_, bb_, bb_ in inloop or cb_ is not sb_, render(TermBuilder(cb_).term(st_["rv"]["ops"][0])), st_.get("line")))
+                rep.check(len(iss) == 1 and not iss[0][2], "R4", "signer|issuer-once", "the signer adds exactly one Issuer subpacket",
+                          "the signer adds %d Issuer subpackets%s: signature_key_ids() only accepts a signature with exactly one issuer id" % (len(iss), " (in a loop / closure)" if any(x[2] for x in iss) else ""),
+                          "%s:%s" % (sb_.file, iss[-1][4] if iss else None))
+                for x in iss:
+                    rep.check(re.fullmatch(r"pgp::types::PublicKeyTrait::key_id\(self\.secret_key\)", x[3]) is not None, "R4", "signer|issuer-own-key", "the Issuer subpacket names the signing key",
+                              "the Issuer subpacket carries %s, not the id of the signing key" % x[3][:120], "%s:%s" % (sb_.file, x[4]))
 
         # ---- R4 -------------------------------------------------------------------------------
         kb = f.one("Package::signature_key_ids")
@@ -220,6 +263,12 @@ def run(f, fixture, rep, cfg, tier):
                 if "UnexpectedIssuerCount" in errs:
                     a, b2 = render(tk.term(rv["a"])), render(tk.term(rv["b"]))
                     guards.append((sbk, a, b2, info))
+            elif info and info["kind"] == "bool" and re.search(r"(Vec::<T, A>|<impl \[T\]>)::len$", info["call"].decl) and [int(v) for v, _b in kb.term(sbk)["targets"]] == [1]:
+                # `match ids.len() { 1 => .., n => Err(UnexpectedIssuerCount(n)) }`
+                errs = {v for (b2, v) in err_assign_blocks(kb) if b2 in reach_from(kb, info["false"])}
+                if "UnexpectedIssuerCount" in errs:
+                    fake = {"stmt": {"rv": {"a": {"c": info["call"].dest}, "b": {"k": {"ty": "usize", "s": "1_usize", "bits": "1", "size": 8}}, "op": "Ne"}}}
+                    guards.append((sbk, render(tk.term({"c": info["call"].dest})), "1_usize", fake))
         rep.floor("R4", "issuer-count guards in signature_key_ids", len(guards), 2)
         for i, (sbk, a, b2, info) in enumerate(guards):
             operand = a if b2 == "1_usize" else b2
@@ -269,3 +318,9 @@ def run(f, fixture, rep, cfg, tier):
         rep.check("pgp::Signature::issuer(" in ret and "self.metadata.signature" in ret, "R4", "reported-ids",
                   "the reported ids are issuer ids of signatures read from the package's signature header",
                   "the reported key ids derive from %s" % ret[:240], kb.span)
+
+    # ---- R7 "its digests still verify": rests on verify_digests deciding by comparison only (C03.R1-R4) -----------------------
+    # sign / clear rebuild the signature header with fewer digests than a foreign package may have carried; verify_digests must
+    # then still succeed, i.e. it may fail only where a recorded digest was compared and differed
+    rep.rule("R7", "digest verification after sign / clear is decided by comparisons only (C03.R1-R4)")
+    rep.include("c03", f, fixture, cfg, tier, "R7", "digest verification", only_rules={"R1", "R2", "R3", "R4"}, floor=20)
